@@ -10,6 +10,20 @@ def kvs(line):
 # C20: arr! in const positions
 # ------------------------------------------------------------------------------------------------
 
+def tn(n):
+    """a typenum type of value n: the `U<n>` alias where typenum defines one, type-level arithmetic otherwise"""
+    def aliased(m):
+        return m <= 1024 or (m & (m - 1)) == 0 or ((m + 1) & m) == 0 or str(m).strip("0") == "1" or m == 3600
+    if aliased(n):
+        return "U%d" % n
+    if n - 1024 <= 1024:
+        return "Sum<U1024, U%d>" % (n - 1024)
+    for d in (1000, 1024, 512, 100):
+        if n % d == 0 and n // d <= 1024:
+            return "Prod<U%d, U%d>" % (d, n // d)
+    raise ValueError(n)
+
+
 def arrconst_item(line):
     kv = kvs(line)
     pos = kv.get("pos", "const")
@@ -32,9 +46,9 @@ def arrconst_item(line):
         mac = "arr![%s]" % body
     else:
         n = int(kv["n"])
-        mac = "arr![1000u64; %s]" % (("U%d" % n) if form == "repty" else str(n))
+        mac = "arr![1000u64; %s]" % (tn(n) if form == "repty" else str(n))
         want = "[1000u64; %d]" % n
-    ty = "GenericArray<u64, U%d>" % n
+    ty = "GenericArray<u64, %s>" % tn(n)
     if pos == "const":
         decl = "const A: %s = %s;" % (ty, mac)
         use = "A"
